@@ -934,6 +934,12 @@ func (s *Sim) complete(t *task) resp {
 				s.stats.ClockSkips++
 				s.stats.SimTimeMs += d.Milliseconds()
 				time.Sleep(d)
+				// the clock only moved once every goroutine of the bubble was durably blocked - the
+				// monitor too, on its notice of that very quiescence: take it, it is not about t
+				select {
+				case <-s.stuck:
+				default:
+				}
 			}
 		}
 	case KStamp:
